@@ -8,7 +8,7 @@ VERIF = os.path.dirname(os.path.dirname(os.path.abspath(__file__)))
 sys.path.insert(0, os.path.join(VERIF, "harness"))
 import registry
 GOENV = dict(os.environ, GOFLAGS="-mod=mod", GOPROXY="off", GOSUMDB="off", GOTOOLCHAIN="local", CGO_ENABLED="0")
-LEVELS = [4, 6, 8, 12, 16, 24, 32]
+LEVELS = [int(x) for x in os.environ.get("CAL_LEVELS", "4,6,8,12,16,24,32").split(",")]
 BUDGET = int(os.environ.get("CAL_BUDGET", "45"))
 gosym = os.environ.get("GOSYM", os.path.join(VERIF, "bin", "gosym"))
 out = sys.argv[1]
